@@ -30,6 +30,14 @@ func AcquireDirLock(dir string, fs vfs.FS) (*DirLock, error) {
 		return nil, err
 	}
 	lockPath := filepath.Join(dir, "LOCK")
+	return acquireDirLockFile(dir, lockPath, fs, 0)
+}
+
+// maxDirLockRetries bounds how often an acquisition restarts because the lock file it
+// opened was unlinked by a concurrent Release before it could be locked.
+const maxDirLockRetries = 16
+
+func acquireDirLockFile(dir, lockPath string, fs vfs.FS, attempt int) (*DirLock, error) {
 	f, err := fs.OpenFileHandle(lockPath, os.O_CREATE|os.O_RDWR, 0o600)
 	if err != nil {
 		return nil, err
@@ -50,6 +58,18 @@ func AcquireDirLock(dir string, fs vfs.FS) (*DirLock, error) {
 		}
 		return nil, err
 	}
+	// Release unlinks LOCK while still holding it. If that happened between our open and
+	// our flock we now hold a lock on an unlinked file, which excludes nobody: start over
+	// with the file that LOCK names now.
+	if !lockFileCurrent(fs, f, lockPath) {
+		if attempt >= maxDirLockRetries {
+			return nil, fmt.Errorf("dirlock: directory %q already in use", dir)
+		}
+		_ = syscall.Flock(int(fd), syscall.LOCK_UN)
+		_ = f.Close()
+		success = true // f is already closed
+		return acquireDirLockFile(dir, lockPath, fs, attempt+1)
+	}
 	if err := f.Truncate(0); err == nil {
 		pid := os.Getpid()
 		host := ""
@@ -69,20 +89,36 @@ func (l *DirLock) Release() error {
 		return nil
 	}
 	var firstErr error
+	// Unlink the lock file while the lock is still held: once it is unlocked another
+	// opener may own this very file, and removing it then would let a third party create
+	// and lock a fresh LOCK file next to that owner.
+	fs := vfs.Ensure(l.fs)
+	if err := fs.Remove(l.path); err != nil && !errors.Is(err, os.ErrNotExist) {
+		firstErr = err
+	}
 	if fd, ok := vfs.FileFD(l.file); ok {
-		if err := syscall.Flock(int(fd), syscall.LOCK_UN); err != nil {
+		if err := syscall.Flock(int(fd), syscall.LOCK_UN); err != nil && firstErr == nil {
 			firstErr = err
 		}
-	} else {
+	} else if firstErr == nil {
 		firstErr = fmt.Errorf("dirlock: file %q does not expose descriptor", l.path)
 	}
 	if err := l.file.Close(); err != nil && firstErr == nil {
 		firstErr = err
 	}
-	fs := vfs.Ensure(l.fs)
-	if err := fs.Remove(l.path); err != nil && !errors.Is(err, os.ErrNotExist) && firstErr == nil {
-		firstErr = err
-	}
 	l.file = nil
 	return firstErr
+}
+
+// lockFileCurrent reports whether path still names the file behind f.
+func lockFileCurrent(fs vfs.FS, f vfs.File, path string) bool {
+	held, err := f.Stat()
+	if err != nil {
+		return true // cannot tell; keep the lock we have
+	}
+	named, err := fs.Stat(path)
+	if err != nil {
+		return false
+	}
+	return os.SameFile(held, named)
 }
